@@ -55,6 +55,21 @@ static void op(int argc, char ** argv)
         const size_t k = h_size(argv[1]), m = h_size(argv[2]);
         outf("%zu | -", cstl_hash_div(k, m));
         out_end();
+    } else if (argc == 4 && strcmp(argv[0], "scan") == 0) {
+        /* search step only (implementation side, no model): first key in
+         * [lo, hi) whose multiplicative hash is not below m */
+        const size_t m = h_size(argv[1]), lo = h_size(argv[2]), hi = h_size(argv[3]);
+        size_t k;
+        for (k = lo; k < hi; k++) {
+            const size_t v = cstl_hash_mul(k, m);
+            if (v >= m) {
+                outf("bad %zu %zu | -", k, v);
+                out_end();
+                return;
+            }
+        }
+        outf("none | -");
+        out_end();
     } else {
         h_stop("bad-op");
     }
